@@ -741,6 +741,26 @@ pub fn thread_end(park_forever: bool) {
     }
 }
 
+/// True when no other simulated thread could run right now (all finished,
+/// blocked or stalled).
+pub fn all_others_idle() -> bool {
+    let me = match current() {
+        Some(t) => t,
+        None => return true,
+    };
+    let g = lock();
+    match g.as_ref() {
+        Some(i) => (0..i.nthreads).all(|t| {
+            t == me
+                || match i.st[t] {
+                    St::Finished | St::Blocked | St::Unborn => true,
+                    St::Runnable => i.stalled[t],
+                }
+        }),
+        None => true,
+    }
+}
+
 pub fn is_finished(t: usize) -> bool {
     let g = lock();
     g.as_ref().map(|i| i.st[t] == St::Finished).unwrap_or(true)
